@@ -42,10 +42,10 @@ func init() {
 }
 
 // Rules shared across properties whose clauses overlap:
-// - C02's certificate route ("chains to a root CA of the layout") rests on the pool provenance (R-C07-4) and on
-//   VerifyCertificateTrust using exactly those pools (R-C07-3);
-// - C08's "verified against the links in the step's sublayout directory" rests on the option wiring (R-C09-6): the
-//   directory handed to VerifySublayouts is the one this layout's own links were loaded from.
+//   - C02's certificate route ("chains to a root CA of the layout") rests on the pool provenance (R-C07-4) and on
+//     VerifyCertificateTrust using exactly those pools (R-C07-3);
+//   - C08's "verified against the links in the step's sublayout directory" rests on the option wiring (R-C09-6): the
+//     directory handed to VerifySublayouts is the one this layout's own links were loaded from.
 func init() {
 	if p := registry["C02"]; p != nil {
 		p.Rules = append(p.Rules,
@@ -63,10 +63,10 @@ func init() {
 	}
 }
 
-// - C05's "all counted links agree" presupposes that each counted sublayout was replaced by the summary of its own
-//   verification (R-C08-1, R-C08-3): a summary copied from another functionary's sublayout makes the links agree trivially;
-// - C09's inspection rules are evaluated by the same engine as step rules: queue / consumption wiring (R-C03-5) and
-//   which rule types fail (R-C03-4) are shared with C03.
+//   - C05's "all counted links agree" presupposes that each counted sublayout was replaced by the summary of its own
+//     verification (R-C08-1, R-C08-3): a summary copied from another functionary's sublayout makes the links agree trivially;
+//   - C09's inspection rules are evaluated by the same engine as step rules: queue / consumption wiring (R-C03-5) and
+//     which rule types fail (R-C03-4) are shared with C03.
 func init() {
 	if p := registry["C05"]; p != nil {
 		p.Rules = append(p.Rules,
